@@ -41,6 +41,7 @@ impl FromStr for AST {
                     .filter(|t| !matches!(t.token, Token::Comment(_)))
                     .collect()
             })
+            .map(without_empty_lines)
             .map_err(ParseErr::from)?;
 
         let mut iterator = LexIterator::new(tokens.iter().peekable());
@@ -60,6 +61,23 @@ impl FromStr for AST {
 
         Ok(AST::new(start.union(end), Node::Block { statements }))
     }
+}
+
+/// Lines which are empty, or contained only a comment, are not significant.
+///
+/// These leave a newline directly after another newline or an indent.
+fn without_empty_lines(tokens: Vec<Lex>) -> Vec<Lex> {
+    let mut significant: Vec<Lex> = Vec::with_capacity(tokens.len());
+    for lex in tokens {
+        let after_line_start = matches!(
+            significant.last().map(|lex| &lex.token),
+            Some(Token::NL) | Some(Token::Indent)
+        );
+        if lex.token != Token::NL || !after_line_start {
+            significant.push(lex);
+        }
+    }
+    significant
 }
 
 #[cfg(test)]
